@@ -392,7 +392,9 @@ def giant_vhd(rng, dense):
                     out[q] = v[j]
         return bytes(out)
     size = nb * bs
-    ft = enc_vhd.footer(size, 3, 512)
+    # footer fields that do not take part in the mapping: creator application, CHS geometry (saturated beyond 127 GiB), time stamp
+    ft = enc_vhd.footer(size, 3, 512, creator_app=rng.choice([b"vpc ", b"vpc ", b"win ", b"qemu"]), geometry=rng.choice([0xFFFF10FF, 0xFFFF10FF, 0x03FF103F]),
+                        timestamp=rng.getrandbits(32))
     ext = [(0, 512, "bytes", ft), (512, 1024, "bytes", enc_vhd.dyn_header(table_offset, nb, bs)), (table_offset, 4 * nb, "fn", bat_gen)]
     for b, p in pos.items():
         assert (data_start + p * stride) // 512 < (1 << 32)
@@ -466,7 +468,9 @@ def giant_hds(rng, dense, ver=2):
                     out[q] = b[j]
         return bytes(out)
     size = n * cs
-    h = enc_hds.header(ver, spc, n, size // 512, hdr_clusters * spc)
+    # header fields that do not take part in the mapping: "disk in use" marker, flags, geometry
+    h = enc_hds.header(ver, spc, n, size // 512, hdr_clusters * spc, in_use=rng.choice([0x746F6E59, 0x746F6E59, 0]), flags=rng.choice([0, 1, 2]),
+                       heads=rng.choice([16, 255]), cyl=rng.choice([1024, 0xFFFF]))
     ext = [(0, 64, "bytes", h), (64, 4 * n, "fn", bat_gen)] + [(o, cs, "pat", 0) for o in off.values()]
     vf = VirtualFile(max(e[0] + e[1] for e in ext), ext)
     probes = []
